@@ -390,7 +390,9 @@ class Project(MessageHandler):
         for task in self.tasks:
             if not task.leaf():
                 continue
-            deps = task.get("depends", scIdx) or []
+            # Own dependencies and those inherited from enclosing containers
+            task_scenario = task.data[scIdx] if task.data else None
+            deps = task_scenario.getAllDependencies() if task_scenario else (task.get("depends", scIdx) or [])
             for dep in deps:
                 if isinstance(dep, dict):
                     pred = dep.get("task")
@@ -408,8 +410,10 @@ class Project(MessageHandler):
                         # derives END from predecessor's START, so this task is NOT terminal
                         has_onstart_dep.add(task.fullId if hasattr(task, "fullId") else None)
                     else:
-                        # Normal finish-to-start: predecessor has a successor
-                        has_fs_successor.add(pred.fullId)
+                        # Normal finish-to-start: predecessor has a successor. If the
+                        # predecessor is a container, so has every task inside it.
+                        for node in pred.all():
+                            has_fs_successor.add(node.fullId)
 
         def propagate_end_to_children(task: Any, container_end: Optional[Any]) -> None:
             """Recursively propagate end constraint down the task tree."""
